@@ -11,6 +11,7 @@
 
 #include "formatters/jsonformatter.h"
 #include "formatters/sentryformatter.h"
+#include "sentry.h"
 #include "simplepipeline.h"
 #include "trace.h"
 
@@ -63,6 +64,52 @@ int main(int argc, char **argv)
     QCoreApplication app(argc, argv);
     if (argc < 2)
         return 2;
+    if (argc >= 3 && QByteArray(argv[1]) == "url") {
+        // sentry.h: the store endpoint from a DSN, from its three parts, from the environment; the headers
+        QFile uin(QString::fromLocal8Bit(argv[2]));
+        if (!uin.open(QIODevice::ReadOnly))
+            return 2;
+        vtrace::Writer uout;
+        while (!uin.atEnd()) {
+            const QByteArray line = uin.readLine();
+            if (line.trimmed().isEmpty())
+                continue;
+            const QJsonObject c = QJsonDocument::fromJson(line).object();
+            const QString host = c["host"].toString(), project = c["project"].toString(), key = c["key"].toString();
+            const QString dsn = QStringLiteral("https://%1@%2/%3").arg(key, host, project);
+            QJsonObject r;
+            r["e"] = "Url";
+            r["host"] = host;
+            r["project"] = project;
+            r["key"] = key;
+            r["dsn"] = dsn;
+            r["fromDsn"] = sentryUrl(dsn);
+            r["fromParts"] = sentryUrl(host, project, key);
+            qunsetenv("SENTRY_HOST");
+            qunsetenv("SENTRY_PROJECT_ID");
+            qunsetenv("SENTRY_PUBLIC_KEY");
+            qputenv("SENTRY_DSN", dsn.toLocal8Bit());
+            bool ok = checkSentryEnv();
+            r["fromEnvDsn"] = sentryUrl();
+            qunsetenv("SENTRY_DSN");
+            ok = ok && !checkSentryEnv();
+            qputenv("SENTRY_HOST", host.toLocal8Bit());
+            qputenv("SENTRY_PROJECT_ID", project.toLocal8Bit());
+            ok = ok && !checkSentryEnv();                     // the key is still missing
+            qputenv("SENTRY_PUBLIC_KEY", key.toLocal8Bit());
+            ok = ok && checkSentryEnv();
+            r["fromEnvParts"] = sentryUrl();
+            r["envOk"] = ok;
+            QString ctype;
+            for (const auto &h : sentryHeaders())
+                if (h.first == "Content-Type")
+                    ctype = QString::fromLatin1(h.second);
+            r["ctype"] = ctype;
+            uout.put(r);
+        }
+        uout.flush();
+        return 0;
+    }
     QFile in(QString::fromLocal8Bit(argv[1]));
     if (!in.open(QIODevice::ReadOnly))
         return 2;
